@@ -64,4 +64,116 @@ def selected (n : Nat) (sl : PySlice) : Option (List Int) :=
   | none => none
   | some (start, stop, step) => some (rangeList n start stop step)
 
+
+/-! ### `indexed_shape` (after fix e8f5bb7): shape of `x[idx]` for a tuple of ints, slices,
+    `None` (newaxis) and `Ellipsis` -/
+
+inductive Idx where
+  | int (i : Int)
+  | slice (s : PySlice)
+  | newaxis
+  | ellipsis
+deriving Repr, DecidableEq
+
+def Idx.consumes : Idx → Bool
+  | .int _ | .slice _ => true
+  | _ => false
+
+/-- `slice_length(length, idx)`: `none` = ValueError; `some none` = the axis disappears (integer
+    index in range); `some (some k)` = the axis has length `k` -/
+def axisLen (length : Nat) : Idx → Option (Option Nat)
+  | .int i => if i < -(length : Int) ∨ i > (length : Int) - 1 then none else some none
+  | .slice s => (sliceLen length s).map (fun k => some k.toNat)
+  | .ellipsis => some (some length)
+  | .newaxis => some (some 1)
+
+/-- Python list `l.insert(k, v)` for `0 ≤ k` -/
+def insertAt {α} (l : List α) (k : Nat) (v : α) : List α := l.take k ++ v :: l.drop k
+
+/-- the loop of `indexed_shape`: state = (idx_shape, offset, newaxis), `axis` = loop counter -/
+def indexedLoop (shape : List Nat) (numNone lenIdx : Nat) :
+    List Idx → Nat → List (Option Nat) → Int → Nat → Option (List (Option Nat))
+  | [], _, acc, _, _ => some acc
+  | .newaxis :: rest, axis, acc, offset, newaxis =>
+    let pos := (axis : Int) + offset
+    if pos < 0 then none
+    else indexedLoop shape numNone lenIdx rest (axis + 1) (insertAt acc pos.toNat (some 1)) offset (newaxis + 1)
+  | .ellipsis :: rest, axis, acc, _, newaxis =>
+    indexedLoop shape numNone lenIdx rest (axis + 1) acc
+      ((shape.length : Int) + numNone - lenIdx) newaxis
+  | ix :: rest, axis, acc, offset, newaxis =>
+    let pos := (axis : Int) + offset
+    let src := pos - newaxis
+    if pos < 0 ∨ src < 0 ∨ pos.toNat ≥ acc.length ∨ src.toNat ≥ shape.length then none
+    else
+      match axisLen (shape.getD src.toNat 0) ix with
+      | none => none
+      | some v => indexedLoop shape numNone lenIdx rest (axis + 1) (acc.set pos.toNat v) offset newaxis
+
+/-- `scico.numpy.util.indexed_shape(shape, idx)`; `none` = ValueError -/
+def indexedShape (shape : List Nat) (idx : List Idx) : Option (List Nat) :=
+  let numNone := (idx.filter (· = .newaxis)).length
+  if (idx.filter Idx.consumes).length > shape.length then none
+  else
+    (indexedLoop shape numNone idx.length idx 0 (shape.map some) 0 0).map (fun l => l.filterMap id)
+
+/-- SPECIFICATION (NumPy basic indexing): consume the axes left to right; an `Ellipsis` stands for
+    as many full slices as there are axes not consumed by the other entries; missing trailing
+    entries are full slices. -/
+def indexWalk : List Nat → List Idx → Nat → Option (List Nat)
+  | shape, [], _ => some shape
+  | shape, .newaxis :: rest, fill => (indexWalk shape rest fill).map (1 :: ·)
+  | shape, .ellipsis :: rest, fill => (indexWalk (shape.drop fill) rest 0).map (shape.take fill ++ ·)
+  | [], _ :: _, _ => none
+  | n :: shape, ix :: rest, fill =>
+    match axisLen n ix with
+    | none => none
+    | some none => indexWalk shape rest fill
+    | some (some k) => (indexWalk shape rest fill).map (k :: ·)
+
+def indexSpec (shape : List Nat) (idx : List Idx) : Option (List Nat) :=
+  let used := (idx.filter Idx.consumes).length
+  if used > shape.length then none else indexWalk shape idx (shape.length - used)
+
+/-! ### collapse rules of `scico/operator/_stack.py` (after fixes/opalg-13) -/
+
+/-- a plain or nested shape (shared with the operator calculus) -/
+inductive NShape where
+  | plain (dims : List Nat)
+  | nested (blocks : List (List Nat))
+deriving Repr, DecidableEq
+
+def NShape.isNested : NShape → Bool
+  | .plain _ => false
+  | .nested _ => true
+
+/-- `is_collapsible` -/
+def isCollapsible : List NShape → Bool
+  | [] => true
+  | s :: rest => !s.isNested && rest.all (· = s)
+
+/-- `is_blockable` -/
+def isBlockable (shapes : List NShape) : Bool := !shapes.any NShape.isNested
+
+inductive Collapsed where
+  | stacked (dims : List Nat)          -- a plain array (N, *S)
+  | blocked (blocks : List (List Nat)) -- a BlockArray of the given blocks
+deriving Repr, DecidableEq
+
+/-- `collapse_shapes(shapes, allow_collapse)`; `none` = ValueError (twice-nested) -/
+def collapseShapes (shapes : List NShape) (allow : Bool) : Option Collapsed :=
+  if isCollapsible shapes && allow then
+    match shapes with
+    | .plain d :: _ => some (.stacked (shapes.length :: d))
+    | _ => none
+  else if isBlockable shapes then
+    some (.blocked (shapes.filterMap (fun s => match s with | .plain d => some d | .nested _ => none)))
+  else none
+
+/-- `shape_to_size` -/
+def prodList (l : List Nat) : Nat := l.foldr (· * ·) 1
+def shapeToSize : NShape → Nat
+  | .plain d => prodList d
+  | .nested bs => (bs.map prodList).foldr (· + ·) 0
+
 end Scico.Shape
